@@ -2105,3 +2105,46 @@ def r_default_dim_table(ctx, f: FunctionInfo, rule="R-KIND", chain=None):
                    f"default table `{unparse(st.value)[:80]}`: the first row must hold the two row dimensions (both sqrt(#rows)) and the second the two column dimensions; "
                    "for a rectangular operand this table has the wrong products", st, chain=chain)
     return n_sites
+
+
+# ---------------------------------------------------------------------------------------------
+def r_index_label_layout(ctx, f: FunctionInfo, rule="R-LAYOUT", chain=None):
+    """A subsystem permutation computed on an array of index labels:  L = arange(N).reshape(dims, order=O1);  L.transpose(axes).ravel(order=O2).
+    toqito's Kronecker convention is row-major over the subsystems, i.e. order='C' with axes = perm, or order='F' (with reversed dims) and the
+    reversal-conjugate axes (n-1) - perm[::-1].  order='F' with the plain perm permutes the MIRRORED subsystems; O1 != O2 scrambles the labels."""
+    sites = 0
+    for n in walk_no_nested(f.node):
+        if not (isinstance(n, ast.Assign) and len(n.targets) == 1 and isinstance(n.targets[0], ast.Name) and isinstance(n.value, ast.Call)):
+            continue
+        v = n.value
+        if not (isinstance(v.func, ast.Attribute) and v.func.attr == "reshape" and isinstance(v.func.value, ast.Call) and unparse(v.func.value.func) in ("np.arange", "numpy.arange")):
+            continue
+        lab = n.targets[0].id
+        o1 = next((kw.value.value for kw in v.keywords if kw.arg == "order" and isinstance(kw.value, ast.Constant)), "C")
+        for c in walk_no_nested(f.node):
+            if not (isinstance(c, ast.Call) and isinstance(c.func, ast.Attribute) and c.func.attr in ("ravel", "flatten", "reshape") and isinstance(c.func.value, ast.Call)
+                    and isinstance(c.func.value.func, ast.Attribute) and c.func.value.func.attr == "transpose" and isinstance(c.func.value.func.value, ast.Name)
+                    and c.func.value.func.value.id == lab):
+                continue
+            sites += 1
+            o2 = next((kw.value.value for kw in c.keywords if kw.arg == "order" and isinstance(kw.value, ast.Constant)), "C")
+            ax = c.func.value.args[0] if c.func.value.args else None
+            # resolve a local
+            srcs = [ax]
+            if isinstance(ax, ast.Name):
+                srcs = [d.value for d in walk_no_nested(f.node) if isinstance(d, ast.Assign) and isinstance(d.targets[0], ast.Name) and d.targets[0].id == ax.id] or [ax]
+            txt = " ".join(unparse(x) for x in srcs if x is not None)
+            conj = "[::-1]" in txt and "-" in txt
+            uses_perm = "perm" in txt
+            if o1 != o2:
+                ok, why = False, f"labels are laid out with order='{o1}' and read back with order='{o2}'"
+            elif not uses_perm:
+                ok, why = None, f"axes `{txt[:50]}` do not mention perm"
+            elif o1 == "C":
+                ok, why = (not conj), ("order='C' with axes = perm" if not conj else "order='C' with reversal-conjugated axes: the mirrored subsystems are permuted")
+            else:
+                ok, why = conj, ("order='F' with axes (n-1) - perm[::-1]" if conj else
+                                 f"order='F' labels are transposed with `{txt[:50]}` as if they were row-major: subsystem k of the F-ordered labels is party n-1-k, so the "
+                                 "operator permutes the mirrored parties (it is still a permutation matrix, and agrees with the right one for two parties and mirror-symmetric perms)")
+            ctx.ob(rule, f, "index-label permutation follows the row-major Kronecker convention", ok, why, c, chain=chain, required=ok is not None)
+    return sites
